@@ -48,6 +48,16 @@ func (g *GenCfg) nextID(kind string) string {
 	return fmt.Sprintf("https://example.com/%s/%d", kind, g.counter)
 }
 
+// iriID: an absolute IRI, one in ten with a query string (the characters & < > are what an independent
+// JSON writer escapes as \u0026 … inside strings)
+func (g *GenCfg) iriID(r *RNG) string {
+	id := g.nextID("iri")
+	if r.Chance(10) {
+		id += r.Pick([]string{"?a=1&b=2", "?q=x&lang=en&p=3", "?tag=%3Cb%3E&x=<y>"})
+	}
+	return id
+}
+
 var langTags = []string{"en", "fr", "de", "ro"}
 var texts = []string{"hello", "Ana are mere", "<p>some <b>html</b></p>", "x", "two words", "ünïcode ✓"}
 var mimeTypes = []string{"text/html", "text/plain", "image/png"}
@@ -112,7 +122,7 @@ func (g *GenCfg) genItem(r *RNG, depth int) interface{} {
 	p := r.Intn(100)
 	switch {
 	case p < 45 || depth <= 0:
-		return T{"iri": g.nextID("iri")}
+		return T{"iri": g.iriID(r)}
 	case p < 80:
 		return g.genNode(r, objectGoTypes[r.Intn(len(objectGoTypes))], depth-1, true)
 	case p < 88 && g.Links:
@@ -130,7 +140,7 @@ func (g *GenCfg) genItemList(r *RNG, depth int, n int) []interface{} {
 		case g.NilMembers && p < 8:
 			out = append(out, nil)
 		case p < 55 || depth <= 0:
-			out = append(out, T{"iri": g.nextID("iri")})
+			out = append(out, T{"iri": g.iriID(r)})
 		case p < 92 || !g.Links:
 			out = append(out, g.withID(g.genNode(r, objectGoTypes[r.Intn(len(objectGoTypes))], depth-1, true)))
 		default:
